@@ -23,6 +23,7 @@ theorem c02_on_source (c : Cfg) (pre : Nat → Option File)
 
 theorem generated_all_ops_known_c02 : taskSemKnown = true := by decide
 
+
 -- BEGIN PINS (written by bin/mkpins; do not edit by hand)
 /-- the Go functions this property's model and obligations were written against have exactly the
 pinned skeletons (SHA-256 prefix of the atom list) -/
@@ -38,8 +39,8 @@ theorem pinned_skeletons_c02 :
 -- END PINS
 
 end SciVerif.Tie
-#print axioms SciVerif.Tie.generated_all_ops_known_c02
 #print axioms SciVerif.Tie.pinned_skeletons_c02
+#print axioms SciVerif.Tie.generated_all_ops_known_c02
 #print axioms SciVerif.Tie.generated_wf_c02
 #print axioms SciVerif.Tie.generated_outcheck_all
 #print axioms SciVerif.Tie.c02_on_source
